@@ -152,11 +152,10 @@ func (net *vcNet) syncTail(w *vcWriter, run int, in *vcInput) {
 		}
 		// 3. faulty validators keep doing anything
 		if in.ByzAfter && byzBudget > 0 && len(net.byz) > 0 && rng.Intn(2) == 0 {
-			cands := net.enabledSteps(rng)
 			byzc := []vcStep{}
-			for _, c := range cands {
-				if c.Name == "Deliver" && net.byz[c.M.Src] {
-					byzc = append(byzc, c)
+			for _, c := range net.candidates(rng) {
+				if c.st.Name == "Deliver" && net.byz[c.st.M.Src] {
+					byzc = append(byzc, c.st)
 				}
 			}
 			if len(byzc) > 0 {
